@@ -339,17 +339,19 @@ let run_crash11 (path : string) =
                   dn_files = [] } in
     let dead = ref false in
     let part = ref 0 in
+    let seg_dbs = ref "" in
+    let nseg = 1 + List.length (List.filter (fun op -> match op with "---" :: _ -> true | _ -> false) c.ops) in
     let ra = ref [] and rb = ref [] in
     let restart lo =
       match drestart !x (List.map (fun h -> cl_of_string (unhex h)) lo) with
       | RNode x' -> x := x'; "Restarted"
       | RStartPanic -> dead := true; "PANIC" in
     let flush_line () =
-      (match !ra with [] -> () | l -> Printf.printf "A %s\n" (String.concat ";" (List.rev l)); ra := []);
+      (if !part < nseg - 1 then (Printf.printf "A%d START valid=1 dbs=%s | %s\n" !part !seg_dbs (String.concat ";" (List.rev !ra)); ra := []));
       (match !rb with [] -> () | l -> Printf.printf "B %s\n" (String.concat ";" (List.rev l)); rb := []) in
     List.iter (fun op ->
       let op = match op with o :: r when String.length o > 0 && o.[0] = '+' -> String.sub o 1 (String.length o - 1) :: r | _ -> op in
-      let push r = if !part = 0 then ra := r :: !ra else rb := r :: !rb in
+      let push r = if !part < nseg - 1 then ra := r :: !ra else rb := r :: !rb in
       if !dead then (match op with "kill" :: _ -> flush_line (); Printf.printf "K DEAD\n" | _ -> ()) else
       match op with
       | ["conn"] -> let (n', _) = connect !x.dn_node in x := { !x with dn_node = n' }; push "Conn"
@@ -358,10 +360,13 @@ let run_crash11 (path : string) =
         let n' = n_set_sup (n_set_repl n' []) [] in
         let n' = { n' with n_sess = List.map (fun s -> { s with s_inbox = [] }) n'.n_sess } in
         x := { !x with dn_node = n' }; push (resp_str r)
-      | "flush" :: orders when !part = 0 -> x := dflush !x (parse_orders orders); push "Flushed"
+      | "flush" :: orders when !part < nseg - 1 -> x := dflush !x (parse_orders orders); push "Flushed"
       | "flush" :: _ -> ()   (* the flush of part B is the one that is killed *)
       | "restart" :: lo -> push (restart lo)
-      | "---" :: lo -> flush_line (); ignore (restart lo); part := 1; Printf.printf "START valid=1\n"
+      | "---" :: lo -> flush_line (); ignore (restart lo); part := !part + 1;
+        seg_dbs := String.concat "," (List.sort compare (List.filter_map (fun (nm, _) ->
+            let s = string_of_cl nm in if s = "$admin" then None else Some (esc s)) !x.dn_node.n_dbs));
+        if !part = nseg - 1 then Printf.printf "START valid=1 dbs=%s\n" !seg_dbs
       | "kill" :: ty :: n :: rest ->
         flush_line ();
         let (orders, lo) = split_at_dashes [] rest in
@@ -390,6 +395,165 @@ let run_crash11 (path : string) =
          | RStartPanic -> Printf.printf "K %s %d %s START PANIC\n" ty n verdict)
       | _ -> failwith "bad crash11 op") c.ops;
     flush_line ();
+    print_string "E\n") (read_cases path)
+
+
+(* ---------- oplog metadata across restarts and crashes (C16) ---------- *)
+let meta_digest (f : mfiles) : string =
+  let dbf = List.concat_map (fun (dbn, fs) ->
+      List.map (fun (fn, data) -> (string_of_cl dbn ^ fname_suffix fn, string_of_cl data)) fs) f.mf_db in
+  let opt name = function Some d -> [(name, string_of_cl d)] | None -> [] in
+  let all = dbf @ opt "is-oplog.valid" f.mf_flag @ opt "keys-nun.keys" f.mf_keys @ opt "keys-nun.keys.tmp" f.mf_tmp in
+  let items = List.map (fun (n, d) -> (n, Printf.sprintf "%s:%d:%s" (esc n) (String.length d) (fnv d))) all in
+  let items = items @ (match f.mf_log with
+      | Some l -> [("oplog-nun.op", Printf.sprintf "oplog-nun.op:%d:*" (25 * List.length l))] | None -> []) in
+  let items = List.sort compare items in
+  Printf.sprintf "files=[%s]" (String.concat "," (List.map snd items))
+
+let meta_dump (x : mnode) : string =
+  let b = Buffer.create 256 in
+  let km = List.sort compare (List.map (fun (k, id) -> Printf.sprintf "%s=%s" (sesc k) (dec_of_n id)) x.mn_cn.cn_keymap) in
+  Buffer.add_string b (Printf.sprintf "keymap=[%s]" (String.concat "," km));
+  let n = x.mn_cn.cn_node in
+  let ids = List.sort compare (List.map (fun (id, nm) -> Printf.sprintf "%s=%s" (dec_of_n id) (sesc nm)) n.n_idmap) in
+  Buffer.add_string b (Printf.sprintf " dbids=[%s]" (String.concat "," ids));
+  let log = match x.mn_files.mf_log with Some l -> l | None -> [] in
+  let recs = List.map (fun r ->
+      let (d, k) = decode_rec x r in
+      let o = function Some v -> sesc v | None -> "?" in
+      Printf.sprintf "%s:%s:%s:%s>%s/%s" (dec_of_n r.r_time) (dec_of_n r.r_key) (dec_of_n r.r_db) (dec_of_n r.r_op) (o d) (o k)) log in
+  let last = match List.rev log with r :: _ -> dec_of_n r.r_time | [] -> "0" in
+  Buffer.add_string b (Printf.sprintf " oplog=[%s] last=%s" (String.concat "," recs) last);
+  let dbs = List.sort (fun (a, _) (b, _) -> compare a b) (List.map (fun (nm, d) -> (string_of_cl nm, d)) n.n_dbs) in
+  List.iter (fun (nm, d) ->
+    Buffer.add_string b (Printf.sprintf " db=%s id=%s strat=%s keys=[" (esc nm) (dec_of_n d.d_id) (string_of_cl (strat_to_str d.d_strat)));
+    let ks = List.sort (fun (a, _) (b, _) -> compare a b) (List.map (fun (k, v) -> (string_of_cl k, v)) d.d_map) in
+    Buffer.add_string b (String.concat "," (List.map (fun (k, v) ->
+      Printf.sprintf "%s=%s@%s" (escv k) (escv (string_of_cl v.v_val)) (z_str v.v_ver)) ks));
+    Buffer.add_string b "]") dbs;
+  Buffer.contents b
+
+let parse_korder (tok : string) : (char list * n) list =
+  if tok = "-" then [] else
+  List.map (fun h ->
+      let s = unhex h in
+      let i = (try String.rindex s '=' with Not_found -> failwith ("key map order expected, got " ^ s)) in
+      (cl_of_string (String.sub s 0 i), n_of_dec (String.sub s (i + 1) (String.length s - i - 1))))
+    (String.split_on_char ',' tok)
+
+let take_orders (x : mnode) (q : string list ref) (shutdown : bool) =
+  (* how many observed orders this flush consumes: the key map first (when it is written) *)
+  let n = x.mn_cn.cn_node in
+  let pop () = match !q with t :: r -> q := r; Some t | [] -> None in
+  let writes_keys = (not x.mn_valid) && (shutdown || n.n_snap <> []) in
+  let ko = if writes_keys then (match pop () with Some t -> parse_korder t | None -> []) else [] in
+  let names = List.sort_uniq compare (List.filter_map (fun (nm, _) ->
+      if List.exists (fun (k, _) -> k = nm) n.n_dbs then Some nm else None) n.n_snap) in
+  (* one order per distinct (name, reclaim) pair after dedup of adjacent duplicates: ask the model *)
+  ignore names;
+  let cnt = List.length (List.filter (fun (nm, _) -> List.exists (fun (k, _) -> k = nm) n.n_dbs) (dedup_snap n.n_snap)) in
+  let rec takek k = if k = 0 then [] else match pop () with Some t -> t :: takek (k - 1) | None -> [] in
+  let os = takek cnt in
+  (ko, parse_orders os)
+
+let run_crash16 (path : string) =
+  List.iter (fun c ->
+    Printf.printf "C %s\n" c.id;
+    let nseg = 1 + List.length (List.filter (fun op -> match op with "---" :: _ -> true | _ -> false) c.ops) in
+    let clock = ref clock0 in
+    let files = ref mf_empty in
+    (* run one segment from [files]; ops carry their orders (A) or take them from [q] (B) *)
+    let run_segment (f0 : mfiles) (lo : string list) (ops : string list list) (q : string list ref option) =
+      match mstart f0 (List.map (fun h -> cl_of_string (unhex h)) lo) !clock true with
+      | MStartPanic -> (None, "START PANIC", [])
+      | MStarted (x0, v) ->
+        let x = ref x0 in
+        let replies = ref [] in
+        List.iter (fun op ->
+          let op = match op with o :: r when String.length o > 0 && o.[0] = '+' -> String.sub o 1 (String.length o - 1) :: r | _ -> op in
+          let r = match op with
+            | ["conn"] -> x := mconnect !x; "Conn"
+            | ["cmd"; sid; line] ->
+              let (x', r) = mcmd !x (nat_of_int (int_of_string sid)) (cl_of_string (unhex line)) in
+              let n' = x'.mn_cn.cn_node in
+              let n' = n_set_sup n' [] in
+              let n' = { n' with n_sess = List.map (fun s -> { s with s_inbox = [] }) n'.n_sess } in
+              x := { x' with mn_cn = { x'.mn_cn with cn_node = n' } }; resp_str r
+            | ["pollrepl"] -> x := mpoll !x; if !x.mn_cn.cn_dead then "REPL-DEAD" else "Polled"
+            | "flush" :: os ->
+              let qq = (match q with Some qq -> qq | None -> ref os) in
+              let (ko, orders) = take_orders !x qq false in
+              x := mflush !x ko orders; "Flushed"
+            | "shutdown" :: os ->
+              let qq = (match q with Some qq -> qq | None -> ref os) in
+              let (ko, orders) = take_orders !x qq true in
+              x := mshutdown !x ko orders; "Shutdown"
+            | _ -> failwith "bad crash16 op" in
+          replies := r :: !replies) ops;
+        clock := !x.mn_cn.cn_node.n_clock;
+        let loaded = List.sort compare (List.filter_map (fun (nm, _) ->
+            let s = string_of_cl nm in if s = "$admin" then None else Some (esc s)) x0.mn_cn.cn_node.n_dbs) in
+        (Some !x, Printf.sprintf "START valid=%d dbs=%s" (if v then 1 else 0) (String.concat "," loaded), List.rev !replies) in
+    (* split the case *)
+    let segs = ref [] and cur = ref [] and los = ref [] and kills = ref [] in
+    List.iter (fun op -> match op with
+      | "---" :: lo -> segs := List.rev !cur :: !segs; cur := []; los := lo :: !los
+      | "kill" :: _ -> kills := op :: !kills
+      | _ -> cur := op :: !cur) c.ops;
+    segs := List.rev !cur :: !segs;
+    let segs = List.rev !segs and los = [] :: List.rev !los and kills = List.rev !kills in
+    let dead = ref false in
+    List.iteri (fun i (ops, lo) ->
+      if i < nseg - 1 && not !dead then begin
+        let (xo, start, replies) = run_segment !files lo ops None in
+        Printf.printf "A%d %s | %s\n" i start (String.concat ";" replies);
+        (match xo with Some x -> files := x.mn_files | None -> dead := true)
+      end) (List.combine segs los);
+    if not !dead then begin
+      let bops = List.nth segs (nseg - 1) and blo = List.nth los (nseg - 1) in
+      let f0 = !files in
+      let clockb = !clock in
+      let printed = ref false in
+      List.iter (fun k -> match k with
+        | "kill" :: ty :: n :: rest ->
+          let (orders, lo) = split_at_dashes [] rest in
+          clock := clockb;
+          let (xo, start, replies) = run_segment f0 blo bops (Some (ref orders)) in
+          if not !printed then begin
+            printed := true;
+            Printf.printf "%s\n" start;
+            let r = match List.rev replies with ("Flushed" | "Shutdown") :: r -> List.rev r | _ -> replies in
+            Printf.printf "B %s\n" (String.concat ";" r)
+          end;
+          (match xo with
+           | None -> Printf.printf "K %s %s killed START PANIC\n" ty n
+           | Some x ->
+             let n = int_of_string n in
+             let sc = match ty with "write" -> ScWrite | "pwrite64" -> ScPwrite | "rename" -> ScRename | _ -> ScUnlink in
+             let total = if ty = "none" then 0 else List.length (List.filter (is_msc sc) x.mn_trace) in
+             let cf = if ty = "none" then f0 else mcrash f0 x sc (nat_of_int n) in
+             let verdict = if ty <> "none" && n > total then "complete" else "killed" in
+             let site = if ty = "none" || n > total then "none" else
+                 (match List.nth (List.filter (is_msc sc) x.mn_trace) (n - 1) with
+                  | MDb (_, OpAppend (f, _)) -> "db:append" ^ fname_suffix f
+                  | MDb (_, OpWriteAt (f, _, d)) -> Printf.sprintf "db:writeat%s/%d" (fname_suffix f) (List.length d)
+                  | MDb (_, OpRename (a, b)) -> "db:rename" ^ fname_suffix a ^ ">" ^ fname_suffix b
+                  | MDb (_, OpRemove f) -> "db:remove" ^ fname_suffix f
+                  | MDb (_, OpCreate f) -> "db:create" ^ fname_suffix f
+                  | MFlagWrite b -> if b = ['\000'] then "flag:write0" else "flag:write1"
+                  | MFlagUnlink -> "flag:unlink" | MLogUnlink -> "log:unlink"
+                  | MLogAppend _ -> "log:append" | MTmpWrite _ -> "keymap:write" | MTmpRename -> "keymap:rename"
+                  | _ -> "create") in
+             Printf.printf "#site %s %d %s\n" ty n site;
+             (match mstart cf (List.map (fun h -> cl_of_string (unhex h)) lo) !clock false with
+              | MStartPanic -> Printf.printf "K %s %d %s START PANIC\n" ty n verdict
+              | MStarted (xc, v) ->
+                (* the observer's Oplog::last_op_time() opens the log for reading, which creates it when absent *)
+                let fobs = { xc.mn_files with mf_log = (match xc.mn_files.mf_log with None -> Some [] | l -> l) } in
+                Printf.printf "K %s %d %s START valid=%d DUMP %s FILES %s\n" ty n verdict (if v then 1 else 0)
+                  (meta_dump xc) (meta_digest fobs)))
+        | _ -> ()) kills
+    end;
     print_string "E\n") (read_cases path)
 
 (* ---------- cluster ---------- *)
@@ -549,6 +713,7 @@ let () =
   | [_; "cluster"; path] -> run_cluster path
   | [_; "disk"; path] -> run_disk path
   | [_; "crash11"; path] -> run_crash11 path
+  | [_; "crash16"; path] -> run_crash16 path
   | [_; "node"; path] -> run_node path
   | [_; "oplog"; path] -> run_oplog path
   | [_; "pending"; path] -> run_pending path
